@@ -205,7 +205,9 @@ func judge(c Case, w *vkit.W) {
 				w.Fail(c, "not-canonical", fmt.Sprintf("%s of %d under DefaultFormat subset %#x = %q want %q", v.path, c.N, c.Default, v.got, v.want))
 			}
 		}
-		w.RetainBytes(c, "MarshalText", b, wantDef)
+		if err == nil && string(b) == wantDef {
+			w.RetainBytes(c, "MarshalText", b, wantDef)
+		}
 		if b2, err := n.MarshalText(); err == nil {
 			w.Owned(c, "MarshalText", b2, wantDef, n.MarshalText)
 		}
@@ -213,6 +215,9 @@ func judge(c Case, w *vkit.W) {
 	case "failing-formatter": // replay of phase B2
 		old := roman.Formatter
 		roman.Formatter = func(buf []byte, n roman.Number, f roman.Format) ([]byte, error) {
+			if n%2 == 0 { // a formatter that fails half-way has already written something
+				return append(buf, "partial "...), errors.New("formatter refused")
+			}
 			return nil, errors.New("formatter refused")
 		}
 		defer func() { roman.Formatter = old }()
@@ -342,6 +347,22 @@ func TestCheck(t *testing.T) {
 					w.Eval(nontrivial(n, def))
 				}
 			})
+			// numbers whose numeral under this DefaultFormat is exactly as long as the limit, one shorter, one longer
+			var atLimit []uint64
+			for n := uint64(112000); n <= 129100 && len(atLimit) < 60; n += 7 {
+				if l := len(ref.RomanNumeral(n, refFlags(def))); l >= 127 && l <= 129 {
+					atLimit = append(atLimit, n)
+				}
+			}
+			atLimit = append(atLimit, 128000, 127000, 129000)
+			r.Serial(func(w *vkit.W) {
+				for _, n := range atLimit {
+					for _, path := range []string{"methods", "formatter"} {
+						judge(Case{N: n, Flags: def, Default: def, Limit: 128, Path: path}, w)
+						w.Eval(true)
+					}
+				}
+			})
 			restore()
 		}
 	})
@@ -353,6 +374,9 @@ func TestCheck(t *testing.T) {
 		old := roman.Formatter
 		defer func() { roman.Formatter = old }()
 		roman.Formatter = func(buf []byte, n roman.Number, f roman.Format) ([]byte, error) {
+			if n%2 == 0 { // a formatter that fails half-way has already written something
+				return append(buf, "partial "...), errors.New("formatter refused")
+			}
 			return nil, errors.New("formatter refused")
 		}
 		for def := 0; def < 128; def++ {
